@@ -83,15 +83,18 @@ class PersistentMixin(Module):
         for pname, pobj in self.parameters.items():
             flag = getattr(pobj, 'persistent', False)
             if flag:
-                if flag == 'auto':
-                    self.addCallback(pname, self.saveParameters)
                 self.initData[pname] = pobj.value
                 if not pobj.given:
                     if pname in loaded:
-                        pobj.value = loaded[pname]
+                        # use the regular setter: this also clears the 'not initialized'
+                        # error and sets the timestamp
+                        setattr(self, pname, loaded[pname])
                     if hasattr(self, 'write_' + pname):
                         # a persistent parameter should be written to HW, even when not yet in persistentData
                         self.writeDict[pname] = pobj.value
+                if flag == 'auto':
+                    # register after restoring, in order not to save while restoring
+                    self.addCallback(pname, self.saveParameters)
         self.__save_params()
 
     def loadPersistentData(self):
@@ -121,11 +124,12 @@ class PersistentMixin(Module):
         """
         loaded = self.loadPersistentData()
         for pname, value in loaded.items():
-            pobj = self.parameters[pname]
-            pobj.value = value
-            pobj.readerror = None
             if hasattr(self, 'write_' + pname):
+                # registering first defers saving until all values are written (see saveParameters)
                 self.writeDict[pname] = value
+        for pname, value in loaded.items():
+            # use the regular setter, so that the restored value is announced
+            setattr(self, pname, value)
         self.writeInitParams()
         return loaded
 
